@@ -188,4 +188,5 @@ func runC02(c *Ctx) {
 		}
 	}
 	c.compareBatch(cases)
+	c.overlapMergeProbe("C02")
 }
